@@ -9,10 +9,9 @@ from common import enc
 from framework import Result
 
 ID = 'C11'
-# ---- PLACEHOLDER (to be filled in by the proof side): Lean targets and theorem names ----------
-LEAN_TARGETS = []
-THEOREMS = []
-# -----------------------------------------------------------------------------------------------
+LEAN_TARGETS = ['TexSoupProofs.Properties.C11']
+THEOREMS = ['TexSoup.C11.' + n for n in (
+    'body_is_opaque', 'unclosed_is_diagnostic', 'end_marker_is_five_tokens', 'builtin_names_plain')]
 PARTIAL = []
 TRUSTED = ['harness/props/c11.py (names, hostile bodies within the provisos, placements, expected shape)',
            'harness/gen_doc.py (documents with verbatim-like environments, expected tree)',
@@ -323,24 +322,47 @@ def _rule(ctx, names):
                            2, len(CONTEXTS)))
 
 
+def _padded_names(r):
+    """Environment names padded with blanks inside the braces (the parser strips names, so they still mean the
+    verbatim-like / math environment).  Model and implementation must agree; they are outside the oracle domain
+    (the serialisation drops the blanks: recorded finding)."""
+    import gen
+    docs = gen.padded_env_docs()
+    reqs, want = [], []
+    for d in docs:
+        for tol in (0, 1):
+            reqs.append(common.parse_req(d, tol, ()))
+            want.append(common.impl_parse(d, tol, ())[0])
+    got = common.model_batch(reqs)
+    for i, (w, g) in enumerate(zip(want, got)):
+        d = docs[i // 2]
+        r.count(('padded', d, i % 2), True)
+        r.bump('padded_names:' + L.parse_err_kind(w))
+        if w != g:
+            r.fail('parse-mismatch', 'model and implementation differ on a padded environment name (tol %d)' % (i % 2),
+                   input=d, impl=w[:300], model=g[:300])
+
+
 def correspondence(ctx):
     r = Result()
     common.impl()
     res, names = _run(ctx, True)
     st = L.merge_jobs(res, r, None)
     st.into(r)
+    _padded_names(r)
     r.exhaustive = True
     r.rule = ('`parse` (tolerance 0; with skip_envs=(name,) and, for user names, also without) and `find` of names that '
-              'occur inside the body, compared textually on: ' + _rule(ctx, names))
+              'occur inside the body, compared textually on: ' + _rule(ctx, names) +
+              '; plus (correspondence only) environment names padded with blanks inside the braces, tolerance 0 and 1')
     return r
 
 
 def oracle(ctx, seeds, scale):
     r = Result()
     common.impl()
-    for s in seeds:
-        if isinstance(s, str):
-            r.count(('seed', s), True)
+    # the inputs on which the correspondence diverged are among the (shared) inputs below, where they are
+    # evaluated first-class with their generating record; nothing more can be said about a bare string
+    r.stats['diverging_inputs_received'] = len([s for s in seeds if isinstance(s, str)])
     key = (ctx.tier, ctx.seed, True, 1)
     res, names = _CACHE[key] if key in _CACHE and scale == 1 else _run(ctx, False, scale)
     st = L.merge_jobs(list(res), None, r)
